@@ -213,6 +213,9 @@ func (c *changeCache) Start(initialSequence uint64) error {
 
 	// Set initial sequence for cache (validFrom)
 	c.channelCache.Init(initialSequence)
+	if base.VerifOn {
+		base.VerifEmit(verifObj(c), "start", c.verifState()...)
+	}
 
 	if !c.started.CompareAndSwap(false, true) {
 		return errors.New("changeCache already started")
@@ -266,6 +269,9 @@ func (c *changeCache) Clear(ctx context.Context) error {
 	c.initTime = time.Now()
 
 	c.channelCache.Clear()
+	if base.VerifOn {
+		base.VerifEmit(verifObj(c), "clear", c.verifState()...)
+	}
 	return nil
 }
 
@@ -286,7 +292,14 @@ func (c *changeCache) InsertPendingEntries(ctx context.Context) error {
 
 	// Trigger _addPendingLogs to process any entries that have been pending too long:
 	c.lock.Lock()
+	var verifPre [4]uint64
+	if base.VerifOn {
+		verifPre = c.verifPre()
+	}
 	changedChannels := c._addPendingLogs(ctx)
+	if base.VerifOn {
+		base.VerifEmit(verifObj(c), "tick", append([]any{"pre", verifPre}, c.verifState()...)...)
+	}
 	c.lock.Unlock()
 
 	c.notifyChange(ctx, changedChannels)
@@ -302,6 +315,10 @@ func (c *changeCache) CleanSkippedSequenceQueue(ctx context.Context) error {
 	base.InfofCtx(ctx, base.KeyCache, "Starting CleanSkippedSequenceQueue for database %s", base.MD(c.db.Name))
 
 	compactedSequences, numSequencesLeftInList := c.skippedSeqs.SkippedSequenceCompact(ctx, int64(c.options.CacheSkippedSeqMaxWait.Seconds()))
+	if base.VerifOn {
+		// not under c.lock (as coded): only the skipped list, which has its own lock, is reported
+		base.VerifEmit(verifObj(c), "abandon", "init", c.initialSequence, "n", compactedSequences, "skip", c.verifSkipped())
+	}
 	if compactedSequences == 0 {
 		base.InfofCtx(ctx, base.KeyCache, "CleanSkippedSequenceQueue complete.  No sequences to be compacted from skipped sequence list for database %s.", base.MD(c.db.Name))
 		return nil
@@ -665,6 +682,14 @@ func (c *changeCache) releaseUnusedSequenceRange(ctx context.Context, fromSequen
 func (c *changeCache) processUnusedRange(ctx context.Context, fromSequence, toSequence uint64, timeReceived channels.FeedTimestamp) []channels.ID {
 	c.lock.Lock()
 	defer c.lock.Unlock()
+	if base.VerifOn {
+		// runs before the deferred unlock: the event is emitted at the end of the critical section
+		verifPre := c.verifPre()
+		defer func() {
+			base.VerifEmit(verifObj(c), "range", append([]any{"pre", verifPre, "seq", fromSequence, "end", toSequence, "kind", "unused",
+				"old", timeReceived.OlderOrEqual(c.options.CachePendingSeqMaxWait)}, c.verifState()...)...)
+		}()
+	}
 
 	var numSkipped int64
 	var changedChannels []channels.ID
@@ -783,6 +808,16 @@ func (c *changeCache) processPrincipalDoc(ctx context.Context, docID string, doc
 func (c *changeCache) processEntry(ctx context.Context, change *LogEntry) []channels.ID {
 	c.lock.Lock()
 	defer c.lock.Unlock()
+	if base.VerifOn {
+		// runs before the deferred unlock: the event is emitted at the end of the critical section
+		verifSeq, verifSkippedIn, verifKind, verifDoc := change.Sequence, change.Skipped, verifEntryKind(change), verifHash(change.DocID)
+		verifPre := c.verifPre()
+		defer func() {
+			base.VerifEmit(verifObj(c), "entry", append([]any{"pre", verifPre, "seq", verifSeq, "end", change.EndSequence, "kind", verifKind, "doc", verifDoc,
+				"sk", verifSkippedIn, "old", change.TimeReceived.OlderOrEqual(c.options.CachePendingSeqMaxWait), "disabled", c.logsDisabled},
+				c.verifState()...)...)
+		}()
+	}
 	if c.logsDisabled {
 		return nil
 	}
@@ -872,6 +907,11 @@ func (c *changeCache) _addToCache(ctx context.Context, change *LogEntry) []chann
 		c.nextSequence = change.EndSequence + 1
 	}
 	delete(c.receivedSeqs, change.Sequence)
+	if base.VerifOn {
+		// the forward to the channel cache, with what a reader that does not hold c.lock sees at this instant
+		base.VerifEmit(verifObj(c), "fwd", "init", c.initialSequence, "seq", change.Sequence, "end", change.EndSequence, "kind", verifEntryKind(change),
+			"late", change.Skipped, "skip", c.verifSkipped(), "hcs", c.channelCache.GetHighCacheSequence())
+	}
 
 	// If unused sequence, notify the cache and return
 	if change.UnusedSequence {
